@@ -9,11 +9,20 @@ Open Scope Z_scope.
 
 Inductive cop :=
 | CInsert (s n : Z) (urls : list string) (ante : Z) (prio : Z)   (* prio: what the real GetTxPriority returned *)
+| CInsertM (signers : list (Z * Z)) (urls : list string) (ante : Z) (prio : Z)  (* several signers: keyed by the first *)
 | CRemove (s n : Z) (ok : bool)                                  (* ok: Remove returned nil *)
 | CSelect (out : list (Z * Z)) (panicked : bool).                (* (sender, nonce) sequence of Select(..).Next() *)
 
-(** every op carries CountTx() observed after it *)
-Inductive case := CHist (ops : list (cop * Z)).
+(** every op carries CountTx() observed after it.
+    CClass: a type URL of the application's interface registry (or a near-miss), the class the property
+    assigns it (harness, from the Go package of the message type), the CheckTx priority used and the
+    priority the real GetTxPriority returned for a single-message transaction of it. *)
+Inductive case :=
+| CHist (ops : list (cop * Z))
+| CClass (url : string) (cls : option nat) (ante prio : Z).
+
+Definition opt_nat_eqb (a b : option nat) : bool :=
+  match a, b with Some x, Some y => Nat.eqb x y | None, None => true | _, _ => false end.
 
 Definition sn_list_eqb := list_eqb sn_eqb.
 
@@ -26,6 +35,11 @@ Definition cstep (acc : option state) (oc : cop * Z) : option state :=
       match o with
       | CInsert s n urls ante prio =>
           if tx_priority urls ante =? prio then Some (insert s n prio st) else None
+      | CInsertM signers urls ante prio =>
+          match signers with
+          | (s, n) :: _ => if tx_priority urls ante =? prio then Some (insert s n prio st) else None
+          | [] => None
+          end
       | CRemove s n ok =>
           let '(st', ok') := remove s n st in if Bool.eqb ok ok' then Some st' else None
       | CSelect out pn =>
@@ -41,4 +55,5 @@ Definition cstep (acc : option state) (oc : cop * Z) : option state :=
 Definition check (c : case) : bool :=
   match c with
   | CHist ops => match fold_left cstep ops (Some init) with Some _ => true | None => false end
+  | CClass url cls ante prio => opt_nat_eqb (tx_class [url]) cls && (tx_priority [url] ante =? prio)
   end.
